@@ -297,14 +297,16 @@ Definition dav_backend (t : node) (path : string) (pf : propfind) (d : depth) : 
 Definition dav_propfind (t : node) (path : string) (ct : ctype) (bd : body) (dh : depth_hdr) : res (list response) :=
   handle_propfind (dav_backend t path) ct bd dh.
 
-(** * webdav.ServePrincipal (servePrincipalPropfind): Depth is not consulted *)
+(** * webdav.ServePrincipal (servePrincipalPropfind): a principal has no members,
+    every valid Depth gives the same answer; an invalid one is refused (ac7c79e) *)
 Definition principal_props (cup : string) (homesets : list (name * string)) : props :=
   ([(n_resourcetype, Val (VRes [n_principal])); (n_cup, Val (VHref cup))]
    ++ map (fun h => (fst h, Val (VHref (snd h)))) homesets)%list.
 
 Definition serve_principal (cup : string) (homesets : list (name * string)) (path : string)
-           (ct : ctype) (bd : body) : res (list response) :=
+           (ct : ctype) (bd : body) (dh : depth_hdr) : res (list response) :=
   do pf <- decode_propfind_request ct bd;
+  do _d <- parse_depth dh;
   do r <- new_propfind_response path pf (principal_props cup homesets);
   Ok [r].
 
@@ -663,17 +665,10 @@ Definition hier_spec (s : server) (h : hier) (rs : list string) (rtrail : bool) 
                      else Some (map (fun p => ((h_ps h ++ pos_rest h p)%list, props_of s b (answered_of h path p))) l)
               end) o.
 
-Definition principal_model (cup : string) (homesets : list (name * string)) (path : string) ct bd : res (list response) :=
-  serve_principal cup homesets path ct bd.
+Definition principal_model (cup : string) (homesets : list (name * string)) (path : string) ct bd dh
+  : res (list response) :=
+  serve_principal cup homesets path ct bd dh.
 
-Definition principal_spec (cup : string) (homesets : list (name * string)) (target : list string) ct bd
+Definition principal_spec (cup : string) (homesets : list (name * string)) (target : list string) ct bd dh
            (o : observation) : bool :=
-  (if N.eqb (ob_status o) 207 then ob_strict o else true) &&
-  match asked_of ct bd with
-  | AskRefuse => N.eqb (ob_status o) 400
-  | AskUnspecified => true
-  | AskForm pf =>
-    N.eqb (ob_status o) 207
-    && all2 (fun e r => list_eqb String.eqb (rid (r_href r)) (fst e) && accounted_b pf (snd e) r)
-            [(target, principal_props cup homesets)] (ob_responses o)
-  end.
+  spec_answer ct bd dh (fun _ => Some [(target, principal_props cup homesets)]) o.
